@@ -196,3 +196,11 @@ Definition dom_entry (v : Z) (s : cpu) : bool :=
      end
   && (((reg32 s 7 - 4) mod A24 + 4 <=? 4 * v) || (4 * v + 4 <=? (reg32 s 7 - 4) mod A24)).
 Definition ref_entry (v : Z) (s : cpu) : option cpu := enter_ref s v (pc s).
+
+(* ---- interrupt system on the reference (C10): FIFO of requests, accepted at a boundary while I is clear ---- *)
+Definition boundary_ref (s : cpu) (q : list Z) : option (cpu * list Z) :=
+  if flag (ccr s) fI then Some (s, q)
+  else match q with
+       | [] => Some (s, q)
+       | v :: r => if dom_entry v s then obind (ref_entry v s) (fun s' => Some (s', r)) else None
+       end.
